@@ -124,7 +124,7 @@ PROPS = {
                         "extra": {"mode": "sched"}, "quick": {"runs": 0}, "thorough": {"runs": 0}, "procs": 6},
                        POOL_SUITE, VAULT_SUITE, TRIO_SUITE]},
     "C19": {"mc": [m for m, _ in _REG], "suites": [x for _, x in _REG]},
-    "C09": {"mc": [MC_DIST, MC_DIST_SCHED], "suites": [DIST_SCHED, DIST_RANDOM, DIST_MULTI]},
+    "C09": {"mc": [MC_DIST, MC_DIST_SCHED, {"module": "MC_BondedClaims", "quick": "MC_BondedClaims_quick.cfg", "thorough": "MC_BondedClaims.cfg", "workers": 4}], "suites": [DIST_SCHED, DIST_RANDOM, DIST_MULTI]},
     "C10": {"mc": [{"module": "MC_Pipeline", "quick": "MC_Pipeline.cfg", "thorough": "MC_Pipeline.cfg", "workers": 4, "emits": "MC_Pipeline"}, MC_DIST],
             "suites": [{"suite": "pipeline", "trace": "Trace_Pipeline", "cfg": "Trace_Pipeline.cfg", "sched_from": "MC_Pipeline",
                         "extra": {"mode": "sched"}, "quick": {"runs": 400}, "thorough": {"runs": 0}, "procs": 8}, DIST_RANDOM, DIST_MULTI],
